@@ -244,6 +244,118 @@ def generate(api):
                    % (FREL, s['x'], s['y'], s['points_at_x'], s['points_at_y']))
         if not re.search(r"LightSource::DistantLight\(\.\.\)\s*=>\s*\{\s*\}", body):
             raise U("DistantLight arm is no longer empty")
+
+        # ================================================================ second pass
+        # ---------------------------------------------------------------- translate_checked (subregion relative to the region)
+        m = re.search(r"\bfn\s+translate_checked\s*\(\s*r:\s*IntRect,\s*origin:\s*IntRect\s*\)\s*->\s*Option<IntRect>\s*\{", src)
+        if not m:
+            raise U("fn translate_checked(r: IntRect, origin: IntRect) -> Option<IntRect> not found")
+        tb = src[m.end() - 1:balanced(src, m.end() - 1, '{', '}')]
+        envz = {}
+
+        def zq(text):
+            """integer expression over r / origin accessors with `as i64` casts -> Coq Z term"""
+            e = parse_expr(text)
+
+            def go(e):
+                if e[0] == 'cast' and e[2] in ('i64', 'i32'):
+                    return go(e[1])
+                if e[0] == 'mcall' and e[1][0] == 'var' and e[1][1] in ('r', 'origin', 'subregion', 'region') and e[2] in REGION_M and not e[3]:
+                    return "(%s %s)" % (REGION_M[e[2]], e[1][1])
+                if e[0] == 'bin' and e[1] in ('+', '-'):
+                    return "(%s %s %s)" % ('Z.add' if e[1] == '+' else 'Z.sub', go(e[2]), go(e[3]))
+                if e[0] == 'num' and re.match(r"^\d+$", e[1]):
+                    return "(%s)%%Z" % e[1]
+                raise U("translate_checked: construct outside the subset: %r" % (e,))
+            return go(e)
+        mx = re.search(r"let\s+x\s*=\s*i32::try_from\((.*?)\)\s*\.ok\(\)\?\s*;", tb, re.S)
+        my = re.search(r"let\s+y\s*=\s*i32::try_from\((.*?)\)\s*\.ok\(\)\?\s*;", tb, re.S)
+        if not mx or not my or not re.search(r"IntRect::from_xywh\(\s*x\s*,\s*y\s*,\s*r\.width\(\)\s*,\s*r\.height\(\)\s*\)\s*\}", tb):
+            raise U("translate_checked: expected `let x = i32::try_from(..).ok()?; let y = ..; IntRect::from_xywh(x, y, r.width(), r.height())`")
+        out.append("(* %s :: translate_checked *)\n"
+                   "Definition translate_checked (r origin : irect) : option irect :=\n"
+                   "  let x := %s in let y := %s in\n  if in_i32 x && in_i32 y then irect_from_xywh x y (iw r) (ih r) else None.\n"
+                   % (FREL, zq(mx.group(1)), zq(my.group(1))))
+        # its users: the clip of a primitive result (subregion2) and feTile's tile
+        if not re.search(r"translate_checked\(\s*subregion\s*,\s*region\s*\)", src):
+            raise U("apply_inner: subregion2 is no longer translate_checked(subregion, region)")
+        m = re.search(r"\bfn\s+apply_tile\s*\(", src)
+        if not m:
+            raise U("fn apply_tile not found")
+        b0 = src.index('{', src.index('->', m.end()))
+        body = src[b0:balanced(src, b0, '{', '}')]
+        if not re.search(r"let\s+subregion\s*=\s*translate_checked\(\s*input\.region\s*,\s*region\s*\)", body):
+            raise U("apply_tile: the tile is no longer translate_checked(input.region, region)")
+        mt = re.search(r"tiny_skia::Transform::from_translate\(\s*(subregion\.x\(\) as f32)\s*,\s*(subregion\.y\(\) as f32)\s*\)", body)
+        if not mt:
+            raise U("apply_tile: the tile shader is not placed by Transform::from_translate(subregion.x() as f32, subregion.y() as f32)")
+        if not re.search(r"Rect::from_xywh\(\s*0\.0\s*,\s*0\.0\s*,\s*region\.width\(\) as f32\s*,\s*region\.height\(\) as f32\s*\)", body):
+            raise U("apply_tile: the filled rectangle is not the whole region-sized result")
+        out.append("(* %s :: apply_tile: tile = translate_checked(input.region, region); shader origin from_translate(subregion.x(), subregion.y()) *)\n"
+                   "Definition tile_origin (input_region region : irect) : option (Z * Z) :=\n"
+                   "  match translate_checked input_region region with Some subregion => Some (%s, %s) | None => None end.\n"
+                   % (FREL, zq('subregion.x()'), zq('subregion.y()')))
+        # primitive sub-regions use the same conversion as the filter region (Gen/LeafRender.v filter_to_int_rect)
+        nsrc = " ".join(src.split())
+        if ("let mut subregion = primitive .rect() .transform(ts) .and_then(|r| crate::geom::to_int_rect(r.to_rect())) .ok_or(Error::InvalidRegion)?;" not in nsrc
+                or "let region = filter .rect() .transform(ts) .and_then(|r| crate::geom::to_int_rect(r.to_rect())) .ok_or(Error::InvalidRegion)?;" not in nsrc):
+            raise U("apply_inner: region / primitive subregion are no longer rect().transform(ts).and_then(|r| crate::geom::to_int_rect(r.to_rect()))")
+        # ---------------------------------------------------------------- feImage placement
+        m = re.search(r"\bfn\s+apply_image\s*\(", src)
+        if not m:
+            raise U("fn apply_image not found")
+        b0 = src.index('{', src.index('->', m.end()))
+        body = src[b0:balanced(src, b0, '{', '}')]
+        mi = re.search(r"let\s+transform\s*=\s*tiny_skia::Transform::from_row\((.*?)\)\s*;", body, re.S)
+        if not mi:
+            raise U("apply_image: `let transform = Transform::from_row(..)` not found")
+        ia = [" ".join(a.split()) for a in split_args(mi.group(1))]
+        if len(ia) != 6 or ia[:4] != ['sx', '0.0', '0.0', 'sy'] or not re.search(r"let\s*\(\s*sx\s*,\s*sy\s*\)\s*=\s*ts\s*\.\s*get_scale\(\)\s*;", body):
+            raise U("apply_image: transform is not from_row(sx, 0, 0, sy, .., ..) with (sx, sy) = ts.get_scale(): %s" % ia)
+        if not re.search(r"Pixmap::try_create\(\s*region\.width\(\)\s*,\s*region\.height\(\)\s*\)", body):
+            raise U("apply_image: the result is not region-sized")
+        out.append("(* %s :: apply_image: Transform::from_row(sx, 0, 0, sy, %s, %s): where the image lands in the result *)\n"
+                   "Definition feimage_pos (subregion region : irect) : Z * Z :=\n  (%s, %s).\n"
+                   % (FREL, ia[4], ia[5], zq(ia[4].replace(' as f32', '')), zq(ia[5].replace(' as f32', ''))))
+        # ---------------------------------------------------------------- feOffset / feDropShadow: scale_coordinates
+        m = re.search(r"\bfn\s+scale_coordinates\s*\(\s*x:\s*f32,\s*y:\s*f32,\s*ts:\s*usvg::Transform\s*\)[^{]*\{(.*?)\n\}", src, re.S)
+        if not m:
+            raise U("fn scale_coordinates(x, y, ts) not found")
+        sb = " ".join(m.group(1).split())
+        ms = re.match(r"let \(sx, sy\) = ts\.get_scale\(\); Some\(\((.*)\)\)$", sb)
+        if not ms:
+            raise U("scale_coordinates: expected `let (sx, sy) = ts.get_scale(); Some((.., ..))`, got %s" % sb)
+        pr = split_args(ms.group(1))
+        envs = {'x': ('x', 'Q'), 'y': ('y', 'Q'), 'sx': ('sx', 'Q'), 'sy': ('sy', 'Q')}
+        out.append("(* %s :: scale_coordinates (feOffset dx / dy, feDropShadow): (sx, sy) = ts.get_scale() *)\n"
+                   "Definition scale_coordinates_q (x y sx sy : Q) : Q * Q :=\n  (%s, %s).\n"
+                   % (FREL, q(parse_expr(pr[0]), envs)[0], q(parse_expr(pr[1]), envs)[0]))
+        m = re.search(r"\bfn\s+apply_offset\s*\(", src)
+        b0 = src.index('{', src.index('->', m.end()))
+        body = src[b0:balanced(src, b0, '{', '}')]
+        if re.search(r"\bregion\b|ts\s*\.\s*t[xy]\b", body) or not re.search(r"scale_coordinates\(fe\.dx\(\),\s*fe\.dy\(\),\s*ts\)", body) \
+                or not re.search(r"draw_pixmap\(\s*dx as i32\s*,\s*dy as i32\s*,", body):
+            raise U("apply_offset: the offset is no longer scale_coordinates(fe.dx(), fe.dy(), ts) drawn at (dx as i32, dy as i32), or it reads the region / translation")
+        # ---------------------------------------------------------------- pattern phase (path.rs render_pattern_pixmap)
+        psrc = strip_comments(api.rd('crates/resvg/src/path.rs'))
+        m = re.search(r"\bfn\s+render_pattern_pixmap\s*\(", psrc)
+        if not m:
+            raise U("fn render_pattern_pixmap not found")
+        b0 = psrc.index('{', psrc.index('->', m.end()))
+        body = psrc[b0:balanced(psrc, b0, '{', '}')]
+        norm = " ".join(body.split())
+        want = ("let mut ts = tiny_skia::Transform::default(); ts = ts.pre_concat(pattern.transform()); ts = ts.pre_translate(rect.x(), rect.y()); "
+                "ts = ts.pre_scale(1.0 / sx, 1.0 / sy); Some((pixmap, ts))")
+        if want not in norm:
+            raise U("render_pattern_pixmap: the shader transform is no longer default . pattern.transform . translate(rect.x, rect.y) . scale(1/sx, 1/sy)")
+        if not re.search(r"let \(sx, sy\) = \{ let ts2 = transform\.pre_concat\(pattern\.transform\(\)\); ts2\.get_scale\(\) \};", norm):
+            raise U("render_pattern_pixmap: (sx, sy) is no longer the scale of transform . pattern.transform")
+        if len(re.findall(r"\btransform\b", norm.split("let rect = pattern.rect();")[1].replace("let transform = tiny_skia::Transform::from_scale(sx, sy);", "")
+                          .replace("ctx, transform, &mut", "").replace("pattern.transform()", ""))) != 0:
+            raise U("render_pattern_pixmap uses the device transform beyond its scale")
+        out.append("(* crates/resvg/src/path.rs :: render_pattern_pixmap: ts = default.pre_concat(pattern.transform()).pre_translate(rect.x(), rect.y()).pre_scale(1/sx, 1/sy) *)\n"
+                   "Definition pattern_shader_ts (pattern_ts : ts) (rect_x rect_y sx sy : Q) : ts :=\n"
+                   "  ts_concat (ts_concat (ts_concat ts_identity pattern_ts) (from_translate rect_x rect_y)) (from_scale (1 / sx)%Q (1 / sy)%Q).\n")
         api.ok('leaves', 'filter_positions', props=PROPS, rel=FREL)
     except (U, OSError, ValueError, IndexError, KeyError) as ex:
         ok = False
